@@ -222,6 +222,27 @@ impl Val {
     }
 }
 
+/// user mappers (Ast.tla MapFn): symbolic except the few that compute
+pub fn map_fn(f: &str, v: Val) -> Val {
+    match f {
+        "num" => Val::I(match v.first_tok() {
+            Some('a') => 1,
+            Some('b') => 2,
+            Some('c') => 3,
+            _ => 0,
+        }),
+        "fst" => match v {
+            Val::P(a, _) => *a,
+            v => Val::m(f, v),
+        },
+        "snd" => match v {
+            Val::P(_, b) => *b,
+            v => Val::m(f, v),
+        },
+        _ => Val::m(f, v),
+    }
+}
+
 /// the shared predicate vocabulary (Ast.tla Pred)
 pub fn pred(p: &str, v: &Val) -> bool {
     match p {
